@@ -6,7 +6,9 @@
 //! API semantics (DESIGN.md C17): the caller feeds the mdat PAYLOAD; room for the Merkle leaves is left in a free box.
 //!
 //! Mutants caught (tools/mutant_run.sh H <diff> C17 quick):
-//!   /verif/mutants/C17-skip8-every-call.diff
+//!   /verif/mutants/C17-skip8-every-call.diff -> `not-valid ... code=assertion.bmffHash.mismatch` for every multi-chunk history
+//! History: on the tree first examined every history whose first chunk had <= 8 bytes (standard header) gave
+//! assertion.bmffHash.mismatch and different leaves; fixed by 06ee5d81f.
 
 use c2pa::{Builder, BuilderIntent, DigitalSourceType, Reader};
 use kit::{
@@ -206,7 +208,10 @@ pub fn flow_n(c: &Case, repeat: u32) -> Result<Result<Obs, String>, String> {
     })
 }
 
+static STATS: std::sync::OnceLock<kit::defs::KeyStats> = std::sync::OnceLock::new();
+
 fn judge(run: &Run, c: &Case, reference: Option<&Value>) {
+    let stats = STATS.get_or_init(Default::default);
     let r = flow(c);
     run.eval();
     let cfg = c.cfg();
@@ -214,11 +219,11 @@ fn judge(run: &Run, c: &Case, reference: Option<&Value>) {
     match r {
         Err(p) => {
             run.outcome("panic");
-            run.violation(format!("panic {cfg} first_chunk{fc}"), format!("{}: {p}", c.id()), c.to_json());
+            stats.violation(run, 40, format!("panic {cfg} first_chunk{fc}"), format!("{}: {p}", c.id()), c.to_json());
         }
         Ok(Err(e)) => {
             run.outcome(format!("error:{}", e.split(':').next().unwrap_or("")));
-            run.violation(format!("flow-error {cfg} first_chunk{fc} step={}", e.split(':').next().unwrap_or("")), format!("{}: {e}", c.id()), c.to_json());
+            stats.violation(run, 40, format!("flow-error {cfg} first_chunk{fc} step={}", e.split(':').next().unwrap_or("")), format!("{}: {e}", c.id()), c.to_json());
         }
         Ok(Ok(o)) => {
             run.outcome(o.state.clone());
@@ -228,19 +233,41 @@ fn judge(run: &Run, c: &Case, reference: Option<&Value>) {
             if o.state != "Valid" {
                 let code = o.failures.first().cloned().unwrap_or_default();
                 let code = code.rsplit(':').next().unwrap_or("").to_string();
-                run.violation(format!("not-valid {cfg} first_chunk{fc} code={code}"),
+                stats.violation(run, 40, format!("not-valid {cfg} first_chunk{fc} code={code}"),
                     format!("{}: patched asset reads {} with {:?}", c.id(), o.state, o.failures), c.to_json());
             }
             if c.leaf_kb > 0 {
                 if let Some(want) = reference {
                     if &o.merkle != want {
                         run.outcome("leaves-differ");
-                        run.violation(format!("leaves-differ {cfg} first_chunk{fc}"),
+                        stats.violation(run, 40, format!("leaves-differ {cfg} first_chunk{fc}"),
                             format!("{}: recorded merkle maps differ from the single-call feed: {} vs {}", c.id(), o.merkle, want), c.to_json());
                     }
                 }
             }
         }
+    }
+}
+
+/// One correctly built asset (single-call feed) validated 32 times: every read must give the same verdict.
+fn repeat_read(run: &Run, c: &Case, sample: bool) {
+    let mut case = c.to_json();
+    case["repeat_reads"] = json!(32);
+    match flow_n(c, 32) {
+        Ok(Ok(o)) => {
+            run.evals(32);
+            run.outcome(format!("repeat-read:{}", if o.reads.1 == 0 { "all-valid" } else if o.reads.0 == 0 { "none-valid" } else { "mixed" }));
+            if sample {
+                run.sample(json!({"case": case, "reads_valid": o.reads.0, "reads_not_valid": o.reads.1}));
+            }
+            if o.reads.0 > 0 && o.reads.1 > 0 {
+                run.violation(format!("nondeterministic-validation {}", c.cfg()),
+                    format!("{}: the same patched asset was read 32 times: {} Valid, {} not ({:?})", c.id(), o.reads.0, o.reads.1, o.failures), case);
+            } else if o.reads.0 == 0 {
+                run.violation(format!("not-valid {} first_chunkwhole code=single-call", c.cfg()), format!("{}: single-call feed never reads Valid: {:?}", c.id(), o.failures), case);
+            }
+        }
+        x => kit::ev::machinery(format!("C17: repeat-read flow failed for {}: {:?}", c.id(), x.map(|r| r.map(|_| ())))),
     }
 }
 
@@ -252,6 +279,11 @@ pub fn run(run: &Run, replay: Option<&Value>) {
     run.assume("the caller feeds the mdat payload (after the box header) and leaves room for the Merkle leaves in a free box after the placeholder, as documented for Builder::placeholder");
     if let Some(c) = replay {
         let case = Case::from_json(c);
+        if c["repeat_reads"].is_u64() {
+            repeat_read(run, &case, false);
+            println!("replay {}: repeated validation done (see violations)", case.id());
+            return;
+        }
         let reference = flow(&Case { cuts: vec![], ..case.clone() }).ok().and_then(|r| r.ok()).map(|o| o.merkle);
         match flow(&case) {
             Ok(Ok(o)) => println!("replay {}: state {} failures {:?} merkle {}", case.id(), o.state, o.failures, o.merkle),
@@ -270,22 +302,7 @@ pub fn run(run: &Run, replay: Option<&Value>) {
     // repeated validation of one correctly built asset: every read must give the same verdict
     for (mdats, large) in [(1usize, false), (2, false), (2, true)] {
         let c = Case { cuts: vec![], leaf_kb: 1, large, mdats };
-        match flow_n(&c, 32) {
-            Ok(Ok(o)) => {
-                run.evals(32);
-                run.outcome(format!("repeat-read:{}valid/{}invalid", o.reads.0, o.reads.1));
-                if mdats == 2 && !large {
-                    run.sample(json!({"case": c.to_json(), "reads_valid": o.reads.0, "reads_not_valid": o.reads.1}));
-                }
-                if o.reads.0 > 0 && o.reads.1 > 0 {
-                    run.violation(format!("nondeterministic-validation {}", c.cfg()),
-                        format!("{}: the same patched asset was read 32 times: {} Valid, {} not ({:?})", c.id(), o.reads.0, o.reads.1, o.failures), c.to_json());
-                } else if o.reads.0 == 0 {
-                    run.violation(format!("not-valid {} first_chunkwhole code=single-call", c.cfg()), format!("{}: single-call feed never reads Valid: {:?}", c.id(), o.failures), c.to_json());
-                }
-            }
-            x => kit::ev::machinery(format!("C17: repeat-read flow failed for {}: {:?}", c.id(), x.map(|r| r.map(|_| ())))),
-        }
+        repeat_read(run, &c, mdats == 2 && !large);
     }
     run.space("repeated validation (32 reads) of the single-call asset: {1 mdat std, 2 mdats std, 2 mdats large} with 1 KB leaves", 3, true);
     if std::env::var("VERIF_C17_TWO_FIRST").is_ok() {
@@ -326,6 +343,7 @@ pub fn run(run: &Run, replay: Option<&Value>) {
             if full { "every cut 1..2999" } else { "cuts 1..=64, 1000..=1060, 2030..=2070, 2984..=2999" }, cases.len() - n2), cases.len() as u64, true);
         par::for_each(&cases, |c| judge(run, c, Some(&base.merkle)));
     }
+    STATS.get_or_init(Default::default).finish(run, "C17");
     let c = Case { cuts: vec![8], leaf_kb: 0, large: false, mdats: 1 };
     if let Ok(Ok(o)) = flow(&c) { run.sample(json!({"case": c.to_json(), "state": o.state, "failures": o.failures})); }
     let c = Case { cuts: vec![9], leaf_kb: 0, large: false, mdats: 1 };
